@@ -32,6 +32,12 @@
 // embedded levels, relations in anonymously embedded structs (S1), value / pointer embedding and
 // every declaration order. Preload names them by their embedded path, Joins / Association().Find /
 // sometimes Preload by the plain name; Preload(clause.Associations) must load all of them.
+//
+// Call order: a quarter of the Preload directives are the LAST of 2-3 Preload calls of the chain for
+// the same name (earlier calls under other conditions or none, at the start of the chain or right
+// before: only the last call counts), some Preload calls are made by a db.Scopes function, and a
+// quarter of the Association().Find calls go through Association(rel).Unscoped() (same rows expected:
+// the soft-delete scope is the handle's).
 package c11
 
 import (
@@ -53,6 +59,9 @@ import (
 type loadNode struct {
 	c    *cond
 	kids map[string]*loadNode
+	// conditions of earlier Preload calls for the same name that the last call replaced (only to measure
+	// whether they would have made a difference; never part of the expectation)
+	prior []priorCall
 }
 
 func (n *loadNode) child(name string) *loadNode {
@@ -74,6 +83,18 @@ type dir struct {
 	c     *cond
 	inner bool
 	plain bool // Preload: the first relation is addressed by its plain name (embedded relation with a unique name)
+	// Preload: EARLIER Preload calls of the same chain that name the same relation (same argument) under
+	// other conditions or none; the last call (this directive) decides, the earlier ones must not show
+	prior []priorCall
+	// Preload: the call is made by a function registered with db.Scopes (it runs when the query is executed);
+	// never for a name the chain preloads more than once
+	scoped bool
+}
+
+// priorCall is a Preload call that a later call of the same chain for the same name replaces.
+type priorCall struct {
+	c     *cond // nil: without conditions
+	early bool  // made at the very start of the chain (else immediately before the call that replaces it)
 }
 
 // gormArg is the path as handed to gorm: Joins (and Preload with plain set) name the first relation
@@ -95,6 +116,7 @@ type op struct {
 	preloads []dir
 	all      bool
 	allCond  *cond
+	allPrior []priorCall // earlier Preload(clause.Associations, ...) calls of the same chain (replaced by the last one)
 	joins    []dir
 	// assoc-find: Model(&parent) | Model(&[]T{parents...}) | Model(&[]*T{parents...}); parents may
 	// repeat and may be soft-deleted rows (only their key values are used)
@@ -102,6 +124,9 @@ type op struct {
 	pshape   string // struct | slice | ptrslice
 	relName  string
 	findCond *cond
+	// assoc-find: Association(rel).Unscoped().Find(..): Unscoped() of the ASSOCIATION chooses what Delete /
+	// Replace / Clear remove; the soft-delete scope of the rows Find reads stays that of the handle
+	assocUnscoped bool
 	// the whole query runs under Unscoped() (called first or last in the chain): the soft-delete scope
 	// is lifted for the parents and for every relation loaded
 	unscoped     bool
@@ -136,8 +161,9 @@ type sibling struct {
 	unscoped bool
 	// Association().Find: base := db.Model(parents).Session(..); the sibling is base.Association(relName)
 	// (executed with cond when exec is set)
-	relName string
-	cond    *cond
+	relName       string
+	cond          *cond
+	assocUnscoped bool // the sibling is base.Association(relName).Unscoped()
 }
 
 // step is one call of a query chain.
@@ -145,7 +171,10 @@ type step struct {
 	kind  string // unscoped | join | all | preload | dup | filter
 	desc  string
 	apply func(*gorm.DB) *gorm.DB
+	prior bool // a Preload call that a later call of the chain replaces
 }
+
+func priorStep(s step) step { s.prior = true; return s }
 
 func joinStep(root *model, d dir) step {
 	fn := "Joins"
@@ -171,7 +200,20 @@ func preloadStep(root *model, d dir) step {
 	if d.c != nil {
 		desc += ", " + d.c.String()
 	}
+	if d.scoped {
+		return step{kind: "preload", desc: ".Scopes(func(tx *gorm.DB) *gorm.DB { return tx" + desc + ") })", apply: func(db *gorm.DB) *gorm.DB {
+			return db.Scopes(func(tx *gorm.DB) *gorm.DB { return tx.Preload(arg, d.c.args()...) })
+		}}
+	}
 	return step{kind: "preload", desc: desc + ")", apply: func(db *gorm.DB) *gorm.DB { return db.Preload(arg, d.c.args()...) }}
+}
+
+func allStep(c *cond) step {
+	desc := ".Preload(clause.Associations"
+	if c != nil {
+		desc += ", " + c.String()
+	}
+	return step{kind: "all", desc: desc + ")", apply: func(db *gorm.DB) *gorm.DB { return db.Preload(clause.Associations, c.args()...) }}
 }
 
 func filterStep(table string, us []int64) step {
@@ -194,18 +236,37 @@ func (o *op) steps() []step {
 	if o.unscoped && !o.unscopedLast {
 		out = append(out, unscopedStep())
 	}
+	// Preload calls that a later call for the same name replaces: at the very start of the chain ...
+	for _, p := range o.allPrior {
+		if p.early {
+			out = append(out, priorStep(allStep(p.c)))
+		}
+	}
+	for _, d := range o.preloads {
+		for _, p := range d.prior {
+			if p.early {
+				out = append(out, priorStep(preloadStep(o.root, dir{path: d.path, c: p.c, plain: d.plain})))
+			}
+		}
+	}
 	for _, d := range o.joins {
 		out = append(out, joinStep(o.root, d))
 	}
 	if o.all {
-		desc := ".Preload(clause.Associations"
-		if o.allCond != nil {
-			desc += ", " + o.allCond.String()
+		// ... or immediately before it
+		for _, p := range o.allPrior {
+			if !p.early {
+				out = append(out, priorStep(allStep(p.c)))
+			}
 		}
-		c := o.allCond
-		out = append(out, step{kind: "all", desc: desc + ")", apply: func(db *gorm.DB) *gorm.DB { return db.Preload(clause.Associations, c.args()...) }})
+		out = append(out, allStep(o.allCond))
 	}
 	for _, d := range o.preloads {
+		for _, p := range d.prior {
+			if !p.early {
+				out = append(out, priorStep(preloadStep(o.root, dir{path: d.path, c: p.c, plain: d.plain})))
+			}
+		}
 		out = append(out, preloadStep(o.root, d))
 	}
 	if o.dup {
@@ -264,13 +325,17 @@ func genSibling(r *core.Rand, ds *dataset, o *op) *sibling {
 		if r.Bool() || (sb.relName == o.relName && o.findCond == nil) {
 			sb.cond = genCond(r, "args", "map")
 		}
+		sb.assocUnscoped = r.Chance(1, 4)
 		return sb
 	}
 	steps := o.steps()
 	sb.cut = r.Range(0, len(steps))
 	firstJoin := 0
-	if len(steps) > 0 && steps[0].kind == "unscoped" {
-		firstJoin = 1
+	for i, s := range steps {
+		if s.kind == "join" {
+			firstJoin = i
+			break
+		}
 	}
 	if len(o.joins) >= 2 && r.Chance(3, 4) {
 		// the shared handle carries some of the joins, the compared chain adds the others (half of the
@@ -497,6 +562,21 @@ func genCond(r *core.Rand, forms ...string) *cond {
 	return c
 }
 
+// genPrior draws the 1-2 earlier Preload calls of a chain for a name whose LAST call carries final:
+// with conditions when the last call has none (the last call lifts them), else without conditions (1/3)
+// or with conditions drawn independently.
+func genPrior(r *core.Rand, final *cond, forms ...string) []priorCall {
+	var out []priorCall
+	for i, n := 0, core.Pick(r, []int{1, 1, 1, 2}); i < n; i++ {
+		p := priorCall{early: r.Bool()}
+		if final == nil || r.Chance(2, 3) {
+			p.c = genCond(r, forms...)
+		}
+		out = append(out, p)
+	}
+	return out
+}
+
 // walk draws a relation path starting at m.
 func walk(r *core.Rand, m *model, depth int, singleOnly bool, skip ...func(*rel) bool) string {
 	var segs []string
@@ -608,6 +688,7 @@ func genOp(r *core.Rand, ds *dataset) *op {
 			if r.Chance(1, 3) {
 				o.findCond = genCond(r, "args", "map")
 			}
+			o.assocUnscoped = r.Chance(1, 4)
 			if tgt := ds.rows[o.root.rel(o.relName).target]; len(tgt) > 0 && r.Chance(1, 4) {
 				o.reuse = true
 				for i, n := 0, r.Range(1, 3); i < n; i++ {
@@ -666,6 +747,13 @@ func genOp(r *core.Rand, ds *dataset) *op {
 		if allowCond && r.Chance(1, 3) {
 			d.c = genCond(r, preloadForms...)
 		}
+		// the relation was named by an EARLIER Preload call of the chain already, under other conditions
+		if r.Chance(1, 4) {
+			d.prior = genPrior(r, d.c, "args", "map", "scope", "scope-unscoped")
+		} else if r.Chance(1, 8) {
+			// the call is made by a scope of the query
+			d.scoped = true
+		}
 		// an embedded relation whose name is unique in the model: sometimes by that plain name (one name
 		// per relation and query: gorm keeps an entry per NAME, each loading the relation field anew)
 		if first := splitPath(o.root, path)[0]; first.plain() != "" && first.plain() != first.name {
@@ -689,6 +777,9 @@ func genOp(r *core.Rand, ds *dataset) *op {
 		o.all = true
 		if r.Chance(1, 3) {
 			o.allCond = genCond(r, "args", "map", "scope")
+		}
+		if r.Chance(1, 5) {
+			o.allPrior = genPrior(r, o.allCond, "args", "map", "scope")
 		}
 		if r.Chance(1, 2) {
 			if p := walk(r, o.root, r.Range(2, 3), false); p != "" && depthOf(o.root, p) >= 2 {
@@ -783,6 +874,7 @@ func (o *op) tree() *loadNode {
 	if o.all {
 		for _, rl := range o.root.rels {
 			t.child(rl.name).c = o.allCond
+			t.child(rl.name).prior = o.allPrior
 		}
 	}
 	for _, d := range o.joins {
@@ -800,8 +892,42 @@ func (o *op) tree() *loadNode {
 		if d.c != nil {
 			n.c = d.c
 		}
+		if d.prior != nil {
+			n.prior = d.prior
+		}
 	}
 	return t
+}
+
+// repeats reports whether some Preload call of the chain is replaced by a later one.
+func (o *op) repeats() bool {
+	for _, d := range o.preloads {
+		if len(d.prior) > 0 {
+			return true
+		}
+	}
+	return len(o.allPrior) > 0
+}
+
+// withoutPrior is the same operation with every relation preloaded by ONE call (the last one).
+func (o *op) withoutPrior() *op {
+	c := *o
+	c.allPrior = nil
+	c.preloads = append([]dir{}, o.preloads...)
+	for i := range c.preloads {
+		c.preloads[i].prior = nil
+	}
+	if o.sib != nil && o.kind != "assoc-find" {
+		sb := *o.sib
+		sb.cut = 0
+		for _, s := range o.steps()[:o.sib.cut] {
+			if !s.prior {
+				sb.cut++
+			}
+		}
+		c.sib = &sb
+	}
+	return &c
 }
 
 func (o *op) desc() string {
@@ -840,8 +966,9 @@ func (o *op) desc() string {
 			sb.WriteString(".Unscoped()")
 		}
 		if o.sib != nil {
-			own := fmt.Sprintf("q := base.Association(%q); ", o.root.rel(o.relName).plain())
-			sib := fmt.Sprintf("sib := base.Association(%q); ", o.root.rel(o.sib.relName).plain())
+			au := map[bool]string{true: ".Unscoped()"}
+			own := fmt.Sprintf("q := base.Association(%q)%s; ", o.root.rel(o.relName).plain(), au[o.assocUnscoped])
+			sib := fmt.Sprintf("sib := base.Association(%q)%s; ", o.root.rel(o.sib.relName).plain(), au[o.sib.assocUnscoped])
 			sb.WriteString(".Session(&gorm.Session{}); ")
 			if o.sib.first {
 				sb.WriteString(sib + own)
@@ -857,7 +984,7 @@ func (o *op) desc() string {
 			}
 			fmt.Fprintf(&sb, "q.Find(&%s", o.dest)
 		} else {
-			fmt.Fprintf(&sb, ".Association(%q).Find(&%s", o.root.rel(o.relName).plain(), o.dest)
+			fmt.Fprintf(&sb, ".Association(%q)%s.Find(&%s", o.root.rel(o.relName).plain(), map[bool]string{true: ".Unscoped()"}[o.assocUnscoped], o.dest)
 		}
 		if o.findCond != nil {
 			sb.WriteString(", " + o.findCond.String())
@@ -917,6 +1044,11 @@ type checker struct {
 	relKinds map[string]int
 	unscoped bool // the whole query runs under Unscoped()
 	lifted   int  // soft-deleted rows found attached where the lifted scope demands them
+	// relation fields loaded as the LAST Preload call demands where the conditions of an earlier, replaced
+	// call would have given other rows
+	replaced int
+	// Association(rel).Unscoped().Find: soft-deleted rows of the parents rightly NOT returned
+	withheld int
 }
 
 func (k *checker) add(rl *rel, f string, a ...interface{}) {
@@ -1088,6 +1220,12 @@ func (k *checker) record(m *model, got reflect.Value, want *row, t *loadNode, wh
 			continue
 		}
 		k.attached += len(kids)
+		for _, pc := range sub.prior {
+			if !sameInts(usOfRows(k.ds.expected(rl, want, pc.c, k.unscoped)), wu) {
+				k.replaced++
+				break
+			}
+		}
 		sort.Slice(kids, func(i, j int) bool { return uOf(kids[i]) < uOf(kids[j]) })
 		for _, kid := range kids {
 			k.record(rl.target, kid, k.ds.byU(rl.target, uOf(kid)), sub, fmt.Sprintf("%s[u=%d]", w, uOf(kid)), rl, false, append(append([]string{}, path...), rl.name)...)
@@ -1235,11 +1373,20 @@ func execOp(ds *dataset, o *op) *checker {
 				assoc = base.Association(rl.plain())
 				sa = base.Association(o.root.rel(o.sib.relName).plain())
 			}
+			if o.sib.assocUnscoped {
+				sa = sa.Unscoped()
+			}
+			if o.assocUnscoped {
+				assoc = assoc.Unscoped()
+			}
 			if o.sib.exec {
 				sa.Find(reflect.New(reflect.SliceOf(o.root.rel(o.sib.relName).target.typ)).Interface(), o.sib.cond.args()...)
 			}
 		} else {
 			assoc = adb.Association(rl.plain())
+			if o.assocUnscoped {
+				assoc = assoc.Unscoped()
+			}
 		}
 		err := assoc.Find(out.Interface(), o.findCond.args()...)
 		if err != nil {
@@ -1291,6 +1438,17 @@ func execOp(ds *dataset, o *op) *checker {
 		for _, e := range exp {
 			if !ds.live(rl.target, e) {
 				k.lifted++
+			}
+		}
+		if o.assocUnscoped && !o.unscoped {
+			seenW := map[int64]bool{}
+			for _, pr := range o.parents {
+				for _, e := range ds.join(rl, pr, o.findCond, true) {
+					if !ds.live(rl.target, e) && !seenW[e.u] {
+						seenW[e.u] = true
+						k.withheld++
+					}
+				}
 			}
 		}
 		for _, kid := range kids {
@@ -1733,7 +1891,23 @@ func run(c *core.Ctx) {
 			if d.c.lifts() {
 				c.Inc("preloads_with_unscoped_scope_function")
 			}
+			if len(d.prior) > 0 && d.c == nil {
+				c.Inc("preloads_repeated_last_call_lifts_the_conditions")
+			} else if len(d.prior) > 0 {
+				c.Inc("preloads_repeated_last_call_with_conditions")
+			}
+			if d.scoped {
+				c.Inc("preloads_registered_by_a_scope_of_the_query")
+			}
 		}
+		if len(o.allPrior) > 0 {
+			c.Inc("preload_associations_repeated")
+		}
+		if o.assocUnscoped {
+			c.Inc("assoc_find_on_unscoped_association")
+		}
+		c.Add("relation_fields_where_a_replaced_preload_call_would_differ", k.replaced)
+		c.Add("assoc_find_on_unscoped_association_soft_deleted_rows_withheld", k.withheld)
 		if o.kind == "assoc-find" {
 			c.Inc(fmt.Sprintf("assoc_find_model_%s_%d_distinct_parents", o.pshape, distinctRows(o.parents)))
 		}
@@ -1756,9 +1930,27 @@ func run(c *core.Ctx) {
 			// attribute to a reused destination / a reused handle / Unscoped() / several parents only
 			// counterfactually: the first single dimension whose removal makes the call agree
 			attributed := false
-			if cls := embeddedClass(o, k); cls != "" {
+			// (a counterfactual, so tried before the pattern-matched classes of the embedded-relation root)
+			if o.repeats() {
+				single := o.withoutPrior()
+				if kf := safeExec(ds, single); len(kf.problems) == 0 {
+					attributed = true
+					sig = "repeated-preload-earlier-call-in-force:" + mechanisms(o, k)
+					detail["counterfactual"] = "the same chain with ONE Preload call per relation (the last one) agrees with the reference join: " + single.desc()
+				}
+			}
+			if cls := embeddedClass(o, k); !attributed && cls != "" {
 				attributed = true
 				sig = cls
+			}
+			if !attributed && o.assocUnscoped {
+				plain := *o
+				plain.assocUnscoped = false
+				if kf := safeExec(ds, &plain); len(kf.problems) == 0 {
+					attributed = true
+					sig = "unscoped-association:assoc-find:" + string(o.root.rel(o.relName).kind)
+					detail["counterfactual"] = "the same call without Unscoped() on the association agrees with the reference join: " + plain.desc()
+				}
 			}
 			if !attributed && o.reuse {
 				fresh := *o
@@ -1838,7 +2030,13 @@ func run(c *core.Ctx) {
 				if d.c != nil {
 					f = d.c.form
 				}
-				paths = append(paths, "P:"+d.path+":"+f+fmt.Sprint(d.plain))
+				for _, pc := range d.prior {
+					f += ":after"
+					if pc.c != nil {
+						f += "-" + pc.c.form
+					}
+				}
+				paths = append(paths, "P:"+d.path+":"+f+fmt.Sprint(d.plain, d.scoped))
 			}
 			sort.Strings(paths)
 			b := k.attached
@@ -1846,7 +2044,7 @@ func run(c *core.Ctx) {
 				b = 3
 			}
 			c.Shape(w.name, profileNames[p], o.kind, o.root.name, o.relName, o.dest, o.fin, o.reuse, o.twice, o.dup, o.all, o.allCond != nil, o.findCond != nil, strings.Join(paths, "|"), b,
-				o.unscoped, o.pshape, distinctRows(o.parents) > 1, o.sib != nil)
+				o.unscoped, o.pshape, distinctRows(o.parents) > 1, o.sib != nil, len(o.allPrior) > 0, o.assocUnscoped)
 			c.Inc("nontrivial_ops")
 			if c.WantSample() && i == 3 {
 				c.Sample(map[string]interface{}{"world": w.name, "profile": profileNames[p], "operation": desc, "parents": k.parents, "children_attached": k.attached, "tables": ds.dump()})
@@ -1867,9 +2065,11 @@ var Engine = &core.Engine{
 		"destination fresh or REUSED (2/5 of the struct, 1/6 of the slice destinations, 1/4 of the Association().Find results): it already holds earlier records - a struct holds the record of the row that is read again - whose relation fields carry 1-2 arbitrary rows (rows whose key still matches but that are soft-deleted or excluded by the condition, or rows of another parent): after the call every REQUESTED relation must hold exactly the reference rows; 1/5 of the chains are frozen with Session(&gorm.Session{}) and executed twice, the second execution is compared; " +
 		"SHARED handle: 1/4 of the other operations (1/2 of those with 3+ joins) split their chain at a random step - with several joins mostly between the joins, half of the time before the last join, so the handle carries 0-7 joins - : base := db.<first steps>.Session(&gorm.Session{}); q := base.<remaining steps>; sib := base.<1-2 joins: a relation q joins itself under another / no ON condition, or another path; 0-2 Preloads: a path q preloads itself under another condition, or another path; Where; Unscoped()>, q and sib derived in either order, sib executed before q or never; q is compared (Association().Find: base := db.Model(parents).Session(..), q/sib := base.Association(rel / same or other rel), sib.Find with another condition); a failure that disappears when the chain is built in one go is signed sibling-on-shared-session-handle:<preload|joins|assoc-find|parents|parents-of-inner-joins>; " +
 		"a failure that disappears with a fresh destination is signed stale-on-reused-destination:<dest>:<preload|joins|assoc-find>[:<relation kind>[:no-owner-key]], one that disappears on the first execution second-execution-of-session-handle:<kind>, one that disappears without the sibling sibling-on-shared-session-handle:*, " +
+		"REPEATED Preload: 1/4 of the Preload directives (1/5 of the Preload(clause.Associations)) are the LAST of 2-3 Preload calls of the same chain for the same name; the 1-2 earlier calls carry conditions (args | map | scope function | scope function calling Unscoped()) when the last call has none (the last call lifts them), else none (1/3) or independently drawn ones; an earlier call stands at the very start of the chain (before the joins; with a shared handle the cut may fall between the calls, so the handle carries the conditional Preload and q replaces it) or immediately before the last call; only the last call counts for the reference join (the counter relation_fields_where_a_replaced_preload_call_would_differ measures how often an earlier call would have given other rows); a failure that disappears when every relation is preloaded by its last call alone is signed repeated-preload-earlier-call-in-force:<preload|joins|parents>; 1/8 of the other Preload directives are made by a function registered with db.Scopes (run when the query is executed); " +
+		"Association(rel).Unscoped().Find: 1/4 of the Association().Find operations (and of their siblings) call Unscoped() on the ASSOCIATION: the rows returned must be the same as without it (the soft-delete scope is that of the handle; counter ..._soft_deleted_rows_withheld = soft-deleted rows of the parents rightly not returned); a failure that disappears without it is signed unscoped-association:assoc-find:<relation kind> (both counterfactuals are tried before the others); " +
 		"one that disappears without Unscoped() unscoped:<preload|joins|assoc-find|parents|parents-of-inner-joins>, an Association().Find on several parents that agrees for each parent alone assoc-find-several-parents:<relation kind>[:composite-key] (tried in this order); " +
 		"ROOT MODEL: Node (8/16 of the operations), Item (3/16) or Org (5/16): a soft-delete model whose relations partly live in EMBEDDED structs - Org.Home (its OWN belongs-to Node), Org.Site.Home and Org.Site.Geo.Home (belongs-to relations of the SAME name in a named embedded struct `embedded;embeddedPrefix:site_` and in a second one embedded in the first: two embedding levels), Org.Site.Crew (has-many Node: Node.boss = the Site key) and Org.Site.Geo.Card (has-one Card: Card.node = the Geo key; I1: Site.Card, so that Geo holds nothing but a relation named like one of Site), S1 also Site.Annex (relation in a struct embedded ANONYMOUSLY in Site) and Mentor (anonymously embedded in the Org); every level has a key tuple of the world's key type drawn like a foreign key aimed at the nodes (existing / dangling / NULL / partially NULL / zero part); shapes per world: own Home declared before / after Site, Site.Home before / after Geo, Geo embedded by value / by pointer (II), the outer struct called Site or Base (IS: plain relation names then sort after the struct's name), explicit foreignKey tags with per-level field names or none with the same field name HomeA on both embedded levels (I1), pointer / value key parts; Preload names an embedded relation by its embedded path (\"Site.Geo.Home\", nested paths continue into the Node family), the plain name Home is the model's own relation for Preload, Joins and Association(); Crew / Card / Annex (unique names) are joined and given to Association() by their plain name, and preloaded by it in 1/4 of the cases (one name per relation and query); Preload(clause.Associations) must load the relations of every level; reused destinations, sessions, siblings, Unscoped as for the other roots; failures on this root are signed <class>:embedded-relation (a deviating relation of an embedded level) | <class>:model-with-embedded-relations | error:<kind>:model-with-embedded-relations, and two recognised classes embedded-relation-not-preloaded:join-of-same-name (the query joins a relation, e.g. the own Home, and preloads an embedded relation with the same field name, which stays empty) and assoc-all-reloads-embedded-relation:nested-preload-lost (Preload(clause.Associations) next to a nested Preload through an embedded relation with a unique name: the rows below it are missing); " +
-		"distinct = (world, operation kind, root, relation paths with condition forms, destination, finisher, reused flag, second-execution flag, duplicate flag, attached-children bucket, Unscoped flag, shape of the Association() parent value, several parents, shared-handle flag); non-trivial = at least one child row was attached where the reference join expects it",
+		"distinct = (world, operation kind, root, relation paths with condition forms, destination, finisher, reused flag, second-execution flag, duplicate flag, attached-children bucket, Unscoped flag, shape of the Association() parent value, several parents, shared-handle flag, forms of the replaced earlier Preload calls, scope-registered flag, Unscoped() on the association); non-trivial = at least one child row was attached where the reference join expects it",
 	Assumptions: []string{
 		"a record whose referenced key parts are ALL zero-valued (0 / '') is never generated as a match target: gorm treats an all-zero key as 'no key' (GetIdentityFieldValuesMap skips it); keys with SOME zero part are generated",
 		"has-one: at most one live child row per owner key (which of several candidates is picked is not fixed by the statement); any number of soft-deleted candidates. Where the soft-delete scope is lifted and a has-one owner has several candidates: a preloaded has-one may hold any ONE of them, and such a relation is never part of a Joins path (the JOIN would multiply the parent row); Association().Find returns all of them",
@@ -1884,6 +2084,8 @@ var Engine = &core.Engine{
 		"SQLite semantics of equality: binary, case- and space-sensitive text comparison; NULL equals nothing",
 		"join-table rows never contain NULL; key columns of parents are never NULL",
 		"relations in embedded structs: an embedded relation shadowed by the model's own relation of the same name is addressed by its embedded path only (Preload); an embedded relation whose name is unique in the model is also addressed by its plain name (the only name Joins and Association() resolve); within one query a relation is preloaded under ONE name (plain or embedded path; gorm keeps one entry per name and each loads the field anew), and never by its plain name next to Preload(clause.Associations); an own foreign key field with the same NAME as a foreign key field of an embedded struct is not generated (which field gorm's naming convention / a foreignKey tag picks for the own relation is schema parsing, not part of this property: observed on the unchanged tree to be the LAST declared field of that name, i.e. the embedded one); all-zero non-NULL key tuples of an Org level are not generated (referenced key of has-many / has-one)",
+		"several Preload calls of one chain for the same name (same argument text): the conditions given are those of the LAST call (gorm keeps one entry per name, a later call replaces it, with or without conditions); the same relation is never preloaded under two different names, and a Preload made by a db.Scopes function never names a relation that the chain preloads itself (its place in the call order is the execution of the query: which call is the last is then not fixed by the statement)",
+		"Association(rel).Unscoped() does not change the rows Find returns: the soft-delete scope of a read is that of the handle (db.Unscoped()); Unscoped() of the association selects what Delete / Replace / Clear remove (property C12)",
 		"order of attached children is not compared (multiset by unique row id u, then every scalar column and nested relation per row)",
 	},
 	Cases: func(tier string) int {
